@@ -437,6 +437,31 @@ def main():
                 if sig_ == "options:file-does-not-compile" and re.search(r"'d\d+' undeclared", text):
                     key = "options:multi-file-memory-init-segment-undeclared"
                 v.deviation(key, {"options": optvec_argv(o, "ref.wasm"), "module_functions": len(jobs[j][1]["funcs"]), "what": text})
+        # C'. an implementation file that cannot be written (its name is taken by a directory, or leads to a device that is full), for the
+        #     first, a middle and the last file and several thread counts: the run ends, and it does not report success
+        fm = make_module(random.Random(SEED + 909), 6, helpers=False)
+        nff = len(fm["funcs"])
+        fjobs = [(k, kind, t) for k in range(3) for kind in ("directory", "dev-full") for t in ((1, 2, 4) if tier == "quick" else (1, 2, 3, 4, 8, 16))]
+
+        def fault_job(fj):
+            k, kind, t = fj
+            d = os.path.join(wd, "fault-%d-%s-%d" % (k, kind, t))
+            os.makedirs(d)
+            open(os.path.join(d, "mod.wasm"), "wb").write(wasm_encode.encode(machine.enc_module(fm)))
+            victim = os.path.join(d, "s%010d.c" % k)
+            if kind == "directory":
+                os.makedirs(victim)
+            else:
+                os.symlink("/dev/full", victim)
+            rc, so, se = run([w2c2, "-t", str(t), "-f", str((nff + 2) // 3), "mod.wasm", "out.c"], cwd=d, timeout=30)
+            shutil.rmtree(d, ignore_errors=True)
+            return rc, se
+        for fj, (rc, se) in zip(fjobs, pmap(fault_job, fjobs)):
+            if rc == -999:
+                v.deviation("pool:hang-when-a-file-cannot-be-written", {"file": fj[0], "obstacle": fj[1], "threads": fj[2]})
+            elif rc == 0:
+                v.deviation("options:success-although-a-file-could-not-be-written", {"file": fj[0], "obstacle": fj[1], "threads": fj[2], "stderr": se[-300:]})
+        stats["write_fault_runs"] = len(fjobs)
         # behaviour under the options: linked together, the program gives the model's results
         items = []
         for mi in range(min(nmods, 3)):
